@@ -189,7 +189,16 @@ theorem simplifyRawE_proj (a : Arg) : (simplifyRawE a).toRes = simplifyRaw a := 
     simp only [simplifyRawE, simplifyRaw]
     cases v with
     | const c => simp only; split <;> rfl
-    | bin op l r => cases op <;> rfl
+    | bin op l r =>
+      cases op
+      case sub =>
+        simp only
+        rw [← neutralizeRawE_proj (.bin .sub r l)]
+        cases neutralizeRawE (.bin .sub r l) with
+        | ok p => rfl
+        | err e t => rfl
+        | panic => rfl
+      all_goals rfl
     | _ => rfl
   | not v =>
     simp only [simplifyRawE, simplifyRaw]
